@@ -43,16 +43,16 @@ theorem RelS.forIn_upto_inv {A : Nat → State → State → Prop} (n : Nat) (f 
   simpa using this
 
 section
-variable {bp k d H N : Nat} {a : Int}
+variable {T0 : State} {bp k d H N : Nat} {a : Int}
 
 /-! ### `fillUndefined`, `popArgs` -/
 
 theorem sh_fillUndefined (lo : Int) (n : Nat) (hlo : lo ≤ N) :
-    RelS (Sh bp k d H N a) (fun _ _ s t => ∃ N', N ≤ N' ∧ lo + n ≤ N' ∧ Sh bp k d H N' a s t)
+    RelS (Sh T0 bp k d H N a) (fun _ _ s t => ∃ N', N ≤ N' ∧ lo + n ≤ N' ∧ Sh T0 bp k d H N' a s t)
       (fillUndefined lo n) (fillUndefined (lo + bp) n) := by
   unfold fillUndefined
-  refine RelS.bind (Q := fun _ _ s t => ∃ N', N ≤ N' ∧ lo + n ≤ N' ∧ Sh bp k d H N' a s t)
-    (RelS.conseq (RelS.forIn_upto_inv (A := fun i s t => ∃ N', N ≤ N' ∧ lo + i ≤ N' ∧ Sh bp k d H N' a s t) n _ _ ?_)
+  refine RelS.bind (Q := fun _ _ s t => ∃ N', N ≤ N' ∧ lo + n ≤ N' ∧ Sh T0 bp k d H N' a s t)
+    (RelS.conseq (RelS.forIn_upto_inv (A := fun i s t => ∃ N', N ≤ N' ∧ lo + i ≤ N' ∧ Sh T0 bp k d H N' a s t) n _ _ ?_)
       (fun s t h => ⟨N, Nat.le_refl _, by omega, h⟩) (fun _ _ _ _ h => h)) ?_
   · intro i hi
     refine RelS.pre_exists fun N' => RelS.pre_and fun h1 => RelS.pre_and fun h2 => ?_
@@ -63,10 +63,10 @@ theorem sh_fillUndefined (lo : Int) (n : Nat) (hlo : lo ≤ N) :
     exact RelS.pure (fun s t h => h)
 
 theorem sh_popArgs (n : Nat) :
-    RelS (Sh bp k d H N a) (PQ (fun _ _ => True) (Sh bp k d H N (a - n))) (popArgs n) (popArgs n) := by
+    RelS (Sh T0 bp k d H N a) (PQ (fun _ _ => True) (Sh T0 bp k d H N (a - n))) (popArgs n) (popArgs n) := by
   unfold popArgs
-  refine RelS.bind (Q := fun _ _ s t => Sh bp k d H N (a - n) s t)
-    (RelS.conseq (RelS.forIn_upto_inv (A := fun i s t => Sh bp k d H N (a - i) s t) n _ _ ?_)
+  refine RelS.bind (Q := fun _ _ s t => Sh T0 bp k d H N (a - n) s t)
+    (RelS.conseq (RelS.forIn_upto_inv (A := fun i s t => Sh T0 bp k d H N (a - i) s t) n _ _ ?_)
       (fun s t h => by simpa using h) (fun _ _ _ _ h => h)) ?_
   · intro i hi
     sh1; sh1; sh1
@@ -99,8 +99,8 @@ macro_rules | `(tactic| shb) => `(tactic| repeat (first
 /-- `bindArgs` of a call without spread: same outcome; on success the parameter slots lie inside the
     related region -/
 theorem sh_bindArgs0 (code : Code) (b numArgs : Int) (hb : b + numArgs = a) (ha : a ≤ N) :
-    RelS (Sh bp k d H N a)
-      (fun x y s t => x = y ∧ ∃ N', N ≤ N' ∧ Sh bp k d H N' a s t ∧ (x = .ok () → b + code.numParams ≤ N'))
+    RelS (Sh T0 bp k d H N a)
+      (fun x y s t => x = y ∧ ∃ N', N ≤ N' ∧ Sh T0 bp k d H N' a s t ∧ (x = .ok () → b + code.numParams ≤ N'))
       (bindArgs code b numArgs 0) (bindArgs code (b + bp) numArgs 0) := by
   unfold bindArgs
   have e0 : ((0 : Int) == 0) = true := rfl
@@ -197,9 +197,9 @@ theorem getElem!_modify2 (fr : Array Frame) (c1 c2 i : Nat) (f1 f2 : Frame → F
   simp
 
 /-- the end of `xOpCallCompiled` (not a tail call): a new frame above the current one, on both sides -/
-theorem Sh.enter {s t : State} (h : Sh bp k d H N a s t) (fa : Addr) (free : Option (List Addr)) (b : Int) (nl : Int)
+theorem Sh.enter {s t : State} (h : Sh T0 bp k d H N a s t) (fa : Addr) (free : Option (List Addr)) (b : Int) (nl : Int)
     (hb : 1 ≤ b) (hroom : k + d + 1 < frameSize) (ipv : Int) :
-    Sh bp k (d + 1) (max H b.toNat) N (b + nl)
+    Sh T0 bp k (d + 1) (max H b.toNat) N (b + nl)
       { s with frameIndex := s.frameIndex + 1,
                frames := (s.frames.modify s.curFrame fun f => { f with ip := ipv }).modify s.frameIndex.toNat fun f =>
                   { f with fn := some fa, free := free, handlers := none, bp := b, discard := false },
@@ -218,7 +218,15 @@ theorem Sh.enter {s t : State} (h : Sh bp k d H N a s t) (fa : Addr) (free : Opt
                   curS := e1, curT := e2, fiS := by show s.frameIndex + 1 = _; omega,
                   fiT := by show t.frameIndex + 1 = _; omega,
                   shapeS := ⟨h.shapeS.stack, by simp [hsS]⟩, shapeT := ⟨h.shapeT.stack, by simp [hsT]⟩,
-                  kLt := by omega, frames := ?_, ips := ?_, bp0 := ?_, bpPos := ?_ }
+                  kLt := by omega, frames := ?_, ips := ?_, bp0 := ?_, bpPos := ?_, lowF := ?_ }
+  rotate_right
+  · intro j hj
+    show ((t.frames.modify t.curFrame _).modify t.frameIndex.toNat _)[j]! = T0.frames[j]!
+    rw [getElem!_modify2, e2, h.curT, hsT]
+    have c1 : ¬ (k + (d + 1) = j ∧ j < frameSize) := fun c => by omega
+    have c2 : ¬ (k + d = j ∧ j < frameSize) := fun c => by omega
+    rw [if_neg c1, if_neg c2]
+    exact h.lowF j hj
   · intro j hj
     show FrameSh bp (max H b.toNat) (((s.frames.modify s.curFrame _).modify s.frameIndex.toNat _)[j]!)
       (((t.frames.modify t.curFrame _).modify t.frameIndex.toNat _)[k + j]!)
@@ -280,15 +288,15 @@ theorem Sh.enter {s t : State} (h : Sh bp k d H N a s t) (fa : Addr) (free : Opt
 
 /-- the result of dispatching a call: the callee's frame is entered / a builtin was applied (both continue in
     related states), or the same uGO error on both sides, to be thrown by the call instruction -/
-def CallQ (bp k d : Nat) (x y : Except OpErr Unit) (s t : State) : Prop :=
-  (x = .ok () ∧ y = .ok () ∧ ∃ d', ShB bp k d' s t) ∨
-  (∃ e, x = .error e ∧ y = .error e ∧ ∃ H N a, Sh bp k d H N a s t ∧ a ≤ N ∧ H ≤ N)
+def CallQ (T0 : State) (bp k d : Nat) (x y : Except OpErr Unit) (s t : State) : Prop :=
+  (x = .ok () ∧ y = .ok () ∧ ∃ d', ShB T0 bp k d' s t) ∨
+  (∃ e, x = .error e ∧ y = .error e ∧ ∃ H N a, Sh T0 bp k d H N a s t ∧ a ≤ N ∧ H ≤ N)
 
 theorem keeps_getSp' {P : State → Prop} : Keeps P getSp := Keeps.intro' (fun s h => h)
 
-theorem Sh.enter' {s t : State} (h : Sh bp k d H N a s t) (fa : Addr) (free : Option (List Addr)) (b : Int) (nl : Int)
+theorem Sh.enter' {s t : State} (h : Sh T0 bp k d H N a s t) (fa : Addr) (free : Option (List Addr)) (b : Int) (nl : Int)
     (hb : 1 ≤ b) (hroom : k + d + 1 < frameSize) (ipv fi fi' : Int) (h1 : s.frameIndex = fi) (h2 : t.frameIndex = fi') :
-    Sh bp k (d + 1) (max H b.toNat) N (b + nl)
+    Sh T0 bp k (d + 1) (max H b.toNat) N (b + nl)
       { s with frameIndex := fi + 1,
                frames := (s.frames.modify s.curFrame fun f => { f with ip := ipv }).modify fi.toNat fun f =>
                   { f with fn := some fa, free := free, handlers := none, bp := b, discard := false },
@@ -301,8 +309,8 @@ theorem Sh.enter' {s t : State} (h : Sh bp k d H N a s t) (fa : Addr) (free : Op
   exact h.enter fa free b nl hb hroom ipv
 
 theorem sh_curFrame_P (P : Frame → Prop) :
-    RelS (fun s t => Sh bp k d H N a s t ∧ P (s.frames[d]!))
-      (PQ (fun f g => FrameSh bp H f g ∧ P f) (Sh bp k d H N a)) curFrame curFrame := by
+    RelS (fun s t => Sh T0 bp k d H N a s t ∧ P (s.frames[d]!))
+      (PQ (fun f g => FrameSh bp H f g ∧ P f) (Sh T0 bp k d H N a)) curFrame curFrame := by
   intro s t h f s' g t' h1 h2
   have e1 : exec curFrame s = (.ok (s.frames[s.curFrame]!), s) := rfl
   have e2 : exec curFrame t = (.ok (t.frames[t.curFrame]!), t) := rfl
@@ -315,13 +323,13 @@ theorem sh_curFrame_P (P : Frame → Prop) :
   · rw [h.1.curS]; exact h.2
 
 theorem sh_clearDown' (hi lo hi' lo' : Int) (h1 : hi' = hi + bp) (h2 : lo' = lo + bp) (hiN : hi ≤ N) :
-    RelS (Sh bp k d H N a) (PQ (fun _ _ => True) (Sh bp k d H N a)) (clearDown hi lo) (clearDown hi' lo') := by
+    RelS (Sh T0 bp k d H N a) (PQ (fun _ _ => True) (Sh T0 bp k d H N a)) (clearDown hi lo) (clearDown hi' lo') := by
   subst h1; subst h2
   exact sh_clearDown hi lo hiN
 macro_rules | `(tactic| sh_prim) => `(tactic| exact sh_clearDown' _ _ _ _ (by omega) (by omega) (by omega))
 
 theorem sh_copySlots (dst dst' : Int) (src : List V) (hd : dst' = dst + bp) :
-    RelS (Sh bp k d H N a) (PQ (fun _ _ => True) (Sh bp k d H N a)) (copySlots dst src) (copySlots dst' src) := by
+    RelS (Sh T0 bp k d H N a) (PQ (fun _ _ => True) (Sh T0 bp k d H N a)) (copySlots dst src) (copySlots dst' src) := by
   subst hd
   unfold copySlots
   refine RelS.bindV (RelS.forIn_list (VR := Eq) _ _ _ _ _ rfl ?_) ?_
@@ -333,13 +341,13 @@ theorem sh_copySlots (dst dst' : Int) (src : List V) (hd : dst' = dst + bp) :
 macro_rules | `(tactic| sh_prim) => `(tactic| exact sh_copySlots _ _ _ (by omega))
 
 theorem sh_dropHandlers :
-    RelS (Sh bp k d H N a) (PQ (fun _ _ => True) (Sh bp k d H N a))
+    RelS (Sh T0 bp k d H N a) (PQ (fun _ _ => True) (Sh T0 bp k d H N a))
       (setCurFrame fun f => { f with handlers := none }) (setCurFrame fun f => { f with handlers := none }) :=
   sh_setCurFrame _ _ H (fun f g x => ⟨x.fn, x.free, x.bpT, trivial, x.discard, x.bpH⟩) (Nat.le_refl _) (fun f => rfl)
 macro_rules | `(tactic| sh_prim) => `(tactic| exact sh_dropHandlers)
 
 theorem sh_setDiscard :
-    RelS (Sh bp k d H N a) (PQ (fun _ _ => True) (Sh bp k d H N a))
+    RelS (Sh T0 bp k d H N a) (PQ (fun _ _ => True) (Sh T0 bp k d H N a))
       (setCurFrame fun f => { f with discard := true }) (setCurFrame fun f => { f with discard := true }) :=
   sh_setCurFrame _ _ H (fun f g x => ⟨x.fn, x.free, x.bpT, x.hs, rfl, x.bpH⟩) (Nat.le_refl _) (fun f => rfl)
 macro_rules | `(tactic| sh_prim) => `(tactic| exact sh_setDiscard)
@@ -354,7 +362,7 @@ macro_rules | `(tactic| shc) => `(tactic| repeat (first
     StackOverflowError where the child, which has `k` more frames, enters the callee) -/
 theorem sh_callCompiled (fa : Addr) (numArgs : Int) (hn : 0 ≤ numArgs) (hb : 1 ≤ a - numArgs) (ha : a ≤ N) (hH : H ≤ N)
     (hroom : k + d + 2 < frameSize) :
-    RelS (Sh bp k d H N a) (CallQ bp k d) (callCompiled fa numArgs 0) (callCompiled fa numArgs 0) := by
+    RelS (Sh T0 bp k d H N a) (CallQ T0 bp k d) (callCompiled fa numArgs 0) (callCompiled fa numArgs 0) := by
   unfold callCompiled
   refine RelS.bindV (sh_foot (foot_fnCell fa)) ?_
   intro cf cf' hcf
@@ -379,7 +387,7 @@ theorem sh_callCompiled (fa : Addr) (numArgs : Int) (hn : 0 ≤ numArgs) (hb : 1
       exact Or.inr ⟨e, rfl, rfl, H, N', a, h2, by omega, by omega⟩)
   | ok u =>
     dsimp only
-    refine RelS.conseq (A := fun s t => ∃ N', (N ≤ N' ∧ a - numArgs + ↑code.numParams ≤ (N' : Int)) ∧ Sh bp k d H N' a s t) ?_
+    refine RelS.conseq (A := fun s t => ∃ N', (N ≤ N' ∧ a - numArgs + ↑code.numParams ≤ (N' : Int)) ∧ Sh T0 bp k d H N' a s t) ?_
       (fun s t h => by
         obtain ⟨N', h1, h2, h3⟩ := h
         exact ⟨N', ⟨h1, h3 rfl⟩, h2⟩) (fun _ _ _ _ h => h)
@@ -391,14 +399,14 @@ theorem sh_callCompiled (fa : Addr) (numArgs : Int) (hn : 0 ≤ numArgs) (hb : 1
     intro _ _
     refine RelS.conseq (A := fun s t => ∃ N'', (N' ≤ N'' ∧
         a - numArgs + ↑code.numParams + ((((code.numLocals : Int) - (code.numParams : Int)).toNat : Nat) : Int) ≤ (N'' : Int)) ∧
-        Sh bp k d H N'' a s t) ?_
+        Sh T0 bp k d H N'' a s t) ?_
       (fun s t h => by
         obtain ⟨N'', h1, h2, h3⟩ := h
         exact ⟨N'', ⟨h1, h2⟩, h3⟩) (fun _ _ _ _ h => h)
     refine RelS.pre_exists fun N'' => RelS.pre_and fun hN'' => ?_
     obtain ⟨hM1, hM2⟩ := hN''
     -- from here on the related region is `N''`; it fits into the parent's stack
-    refine RelS.conseq (A := fun s t => (N'' + bp ≤ stackSize) ∧ Sh bp k d H N'' a s t) ?_
+    refine RelS.conseq (A := fun s t => (N'' + bp ≤ stackSize) ∧ Sh T0 bp k d H N'' a s t) ?_
       (fun s t h => ⟨h.room, h⟩) (fun _ _ _ _ h => h)
     refine RelS.pre_and fun hrm => ?_
     have m1 : min ((stackSize : Nat) : Int) (a - numArgs + (code.numLocals : Int)) = a - numArgs + (code.numLocals : Int) := by
@@ -419,7 +427,7 @@ theorem sh_callCompiled (fa : Addr) (numArgs : Int) (hn : 0 ≤ numArgs) (hb : 1
     refine RelS.bindV sh_getIp ?_
     intro ip _ hip
     subst hip
-    have nontail : RelS (Sh bp k d H N'' a) (CallQ bp k d)
+    have nontail : RelS (Sh T0 bp k d H N'' a) (CallQ T0 bp k d)
         (do
           let s ← getS
           if s.frameIndex + 1 > ↑frameSize - 1 then pure (Except.error OpErr.stackOverflow)
@@ -499,7 +507,7 @@ macro_rules | `(tactic| foot_prim) => `(tactic| exact foot_callBuiltin _ _)
 macro_rules | `(tactic| sh_prim) => `(tactic| exact sh_popArgs _)
 
 theorem sh_callObject (callee : V) (numArgs : Int) (ha : a ≤ N) (hH : H ≤ N) :
-    RelS (Sh bp k d H N a) (CallQ bp k d) (callObject callee numArgs 0) (callObject callee numArgs 0) := by
+    RelS (Sh T0 bp k d H N a) (CallQ T0 bp k d) (callObject callee numArgs 0) (callObject callee numArgs 0) := by
   unfold callObject
   have e0 : ¬ ((0 : Int) > 0) := by decide
   split
@@ -512,7 +520,7 @@ theorem sh_callObject (callee : V) (numArgs : Int) (ha : a ≤ N) (hH : H ≤ N)
 
 theorem sh_callAny (callee : V) (numArgs : Int) (hn : 0 ≤ numArgs) (hb : 1 ≤ a - numArgs) (ha : a ≤ N) (hH : H ≤ N)
     (hroom : k + d + 2 < frameSize) :
-    RelS (Sh bp k d H N a) (CallQ bp k d) (callAny callee numArgs 0) (callAny callee numArgs 0) := by
+    RelS (Sh T0 bp k d H N a) (CallQ T0 bp k d) (callAny callee numArgs 0) (callAny callee numArgs 0) := by
   unfold callAny
   split
   · exact sh_callCompiled _ numArgs hn hb ha hH hroom
@@ -520,7 +528,7 @@ theorem sh_callAny (callee : V) (numArgs : Int) (hn : 0 ≤ numArgs) (hb : 1 ≤
 
 /-- the end of CALL / CALLNAME: continue, or throw the error of the dispatch -/
 theorem sh_callEnd (x y : Except OpErr Unit) :
-    RelS (CallQ bp k d x y) (PostC bp k)
+    RelS (CallQ T0 bp k d x y) (PostC T0 bp k)
       (match x with | .ok () => pure Ctl.next | .error e => failWith e)
       (match y with | .ok () => pure Ctl.next | .error e => failWith e) := by
   intro s t h r s' r' t' h1 h2
@@ -533,7 +541,7 @@ theorem sh_callEnd (x y : Except OpErr Unit) :
 
 /-- reading a slot: the index was not negative -/
 theorem sh_stackGet_nn (i j : Int) (hj : j = i + bp) (hN : 0 ≤ i → i < N) :
-    RelS (Sh bp k d H N a) (PQ (fun x y => x = y ∧ 0 ≤ i) (Sh bp k d H N a)) (stackGet i) (stackGet j) := by
+    RelS (Sh T0 bp k d H N a) (PQ (fun x y => x = y ∧ 0 ≤ i) (Sh T0 bp k d H N a)) (stackGet i) (stackGet j) := by
   intro s t h x s' y t' h1 h2
   have := sh_stackGet i j hj hN s t h x s' y t' h1 h2
   refine ⟨⟨this.1, ?_⟩, this.2⟩
@@ -554,7 +562,7 @@ def callOperands : M (Nat × Nat) := do
 def NoSpread (s : State) : Prop := ∀ p s', exec callOperands s = (.ok p, s') → p.2 = 0
 
 theorem sh_callOperands :
-    RelS (fun s t => Sh bp k d H N a s t ∧ NoSpread s) (PQ (fun x y => x = y ∧ x.2 = 0) (Sh bp k d H N a)) callOperands callOperands := by
+    RelS (fun s t => Sh T0 bp k d H N a s t ∧ NoSpread s) (PQ (fun x y => x = y ∧ x.2 = 0) (Sh T0 bp k d H N a)) callOperands callOperands := by
   intro s t h x s' y t' h1 h2
   have hf : Foot callOperands := by unfold callOperands; foot
   have := sh_foot hf s t h.1 x s' y t' h1 h2
@@ -571,7 +579,7 @@ theorem execCall_eq : execCall = (callOperands >>= fun p => do
 
 /-- **CALL** without spread, the parent having a free frame -/
 theorem sh_execCall (ha : a ≤ N) (hH : H ≤ N) (hroom : k + d + 2 < frameSize) :
-    RelS (fun s t => Sh bp k d H N a s t ∧ NoSpread s) (PostC bp k) execCall execCall := by
+    RelS (fun s t => Sh T0 bp k d H N a s t ∧ NoSpread s) (PostC T0 bp k) execCall execCall := by
   rw [execCall_eq]
   refine RelS.bindV sh_callOperands ?_
   rintro ⟨n, fl⟩ _ ⟨h1, h2⟩
@@ -614,7 +622,7 @@ theorem execCallName_eq : execCallName = (callOperands >>= fun p => do
 
 /-- **CALLNAME** without spread, the parent having a free frame -/
 theorem sh_execCallName (ha : a ≤ N) (hH : H ≤ N) (hroom : k + d + 2 < frameSize) :
-    RelS (fun s t => Sh bp k d H N a s t ∧ NoSpread s) (PostC bp k) execCallName execCallName := by
+    RelS (fun s t => Sh T0 bp k d H N a s t ∧ NoSpread s) (PostC T0 bp k) execCallName execCallName := by
   rw [execCallName_eq]
   refine RelS.bindV sh_callOperands ?_
   rintro ⟨n, fl⟩ _ ⟨h1, h2⟩
@@ -634,7 +642,7 @@ theorem sh_execCallName (ha : a ≤ N) (hH : H ≤ N) (hroom : k + d + 2 < frame
   intro x__ _ hnm
   subst hnm
   sh1; sh1
-  have rest : ∀ (N1 : Nat), N ≤ N1 → RelS (Sh bp k d H N1 (a - 1)) (PostC bp k)
+  have rest : ∀ (N1 : Nat), N ≤ N1 → RelS (Sh T0 bp k d H N1 (a - 1)) (PostC T0 bp k)
       (do
         let r ← vIndexGet obj x__
         match r with
